@@ -395,6 +395,16 @@ Definition init_state (builtins : list file) : state :=
   mkState (map (fun fc => mkMinfo 0 0 fc) builtins) [] [] [] [] [] 0.
 Definition init_cfg (glob lazy : bool) (builtins : list file) : cfg := mkCfg glob lazy (seq 0 (length builtins)).
 
+(* histories over several languages (string loads are single-language operations and are skipped here) *)
+Fixpoint ml_hist (mc : mlcfg) (fs : list file) (ms : state * list (nat * list (nat * nat))) (ops : list op)
+  : state * list (nat * list (nat * nat)) :=
+  match ops with
+  | [] => ms
+  | OWrite f fc :: t => ml_hist mc (set_nth f fc fs) ms t
+  | OLoad f :: t => ml_hist mc fs (snd (ml_load fs mc f ms)) t
+  | OLoadStr _ :: t => ml_hist mc fs ms t
+  end.
+
 (* the state after a history of loads and rewrites *)
 Fixpoint run_hist (c : cfg) (fs : list file) (s : state) (ops : list op) : state :=
   match ops with
